@@ -182,7 +182,7 @@ pub fn run(tier: &str) -> i32 {
         launches += 1;
         let refc = match launch(&cfgp, free_port(), free_port(), &[], &scratch.path) {
             Launch::Started(s) => {
-                let r = Client::connect(s.port).and_then(|mut c| c.census(MAX_ID));
+                let r = census_retry(s.port, MAX_ID);
                 s.kill();
                 match r {
                     Ok(c) => c,
@@ -252,12 +252,16 @@ pub fn run(tier: &str) -> i32 {
         let out = match launch(&cfg2, free_port(), free_port(), &[], &work) {
             Launch::Refused { .. } => ("refused".to_string(), None),
             Launch::Hung { log_tail } => ("hung".to_string(), Some(format!("neither listening nor exited within 30 s: {log_tail}"))),
-            Launch::Started(s) => {
-                let r = Client::connect(s.port).and_then(|mut c| c.census(MAX_ID));
+            Launch::Started(mut s) => {
+                let r = census_retry(s.port, MAX_ID);
                 let lt = s.log_tail(3);
+                let died = s.exited();
                 s.kill();
                 match r {
-                    Err(e) => ("census-error".to_string(), Some(e)),
+                    // the port opened but the process exited before it served anything: it did
+                    // not start successfully, which is a refusal
+                    Err(_) if died.is_some() => ("refused".to_string(), None),
+                    Err(e) => ("started-but-does-not-answer".to_string(), Some(format!("{e}; server log: {lt}"))),
                     Ok(c) => {
                         if &c == refc {
                             ("started-equal".to_string(), None)
